@@ -529,3 +529,61 @@ class MappingTpcBegin(Spec):
 
 SPECS += [NewTid, MappingTpcBegin]
 INLINE.append('ZODB.utils:check_precondition')
+
+
+class _MappingForeign(Spec):
+    """C05, calls naming a transaction that is NOT the one in progress (or made while none is): refused with
+    StorageTransactionError and WITHOUT any effect - empty frame: the staged data, the committed revisions, the
+    transaction in progress and the commit lock of its owner are as before."""
+    props = ('C05',)
+    cases = ('other', 'idle')
+
+    def setup(self, c, case=None):
+        lock = prims.new_lock(c, 'MappingStorage._lock', reentrant=True, held=0)
+        clock = prims.new_lock(c, 'MappingStorage._commit_lock', reentrant=False, held=0 if case == 'idle' else 1)
+        txn = NONE if case == 'idle' else c.fresh_opaque('transaction')
+        data = c.new_obj('oidmap', None, {}, {'tree_ref': None, 'name': '_data'})
+        tdata = prims.new_map(c, 'bytes8', 'opaque', '_tdata')
+        me = inst(c, MS, _data=data, _lock=lock, _commit_lock=clock, _opened=VBool(True), _transaction=txn,
+                  _tdata=tdata, _tid=c.fresh_bytes(8, '_tid'))
+        t = c.fresh_opaque('other_transaction')
+        if case == 'other':
+            c.assume(t.t != txn.t)
+        c.ghost['fo'] = {'lock': lock, 'clock': clock}
+        return dict({'self': me, 'transaction': t}, **self.extra(c))
+
+    def extra(self, c):
+        return {}
+
+    def modifies(self, c, E):
+        return set()
+
+    def outcomes(self, c, E):
+        g = c.ghost['fo']
+        held0 = c.obj(g['clock']).f['held']
+
+        def post(cc, E, x):
+            return [('storage-lock-released', cc.obj(g['lock']).f['held'] == 0),
+                    ('commit-lock-stays-with-its-holder', cc.obj(g['clock']).f['held'] == held0),
+                    ('no-callback-ran', not any(e[0] == 'callback' for e in cc.events))]
+        return [Outcome('refused', 'raise', 'ZODB.POSException:StorageTransactionError', post=post)]
+
+
+class MappingVoteForeign(_MappingForeign):
+    func = MS + '.tpc_vote'
+
+
+class MappingFinishForeign(_MappingForeign):
+    """tpc_finish for a foreign transaction: refused before the callback runs and before anything is published
+    (the case of the storage's OWN transaction - publishing `_tdata` - is not under contract: bounded only)."""
+    func = MS + '.tpc_finish'
+
+    def extra(self, c):
+        def cb(cc, args, kwargs, node):
+            cc.event('callback')
+            return NONE
+        from pyvc.values import VFunc
+        return {'func': VFunc('spec', 'finish-callback', None, cb)}
+
+
+SPECS += [MappingVoteForeign, MappingFinishForeign]
